@@ -2,7 +2,7 @@ SPECIFICATION Spec
 CONSTANTS
   N = 4
   AllNord = FALSE
-  OwnNeg = 0
+  OwnNeg = 1
   OwnPos = 1
   MaxSteps = 2
   Variant = "design"
@@ -13,4 +13,5 @@ INVARIANT CurIsSolution
 INVARIANT TotalIsSum
 INVARIANT MC_OrderIsEvalOrder
 PROPERTY ConfigFrozen
+VIEW MCView
 CHECK_DEADLOCK FALSE
